@@ -503,8 +503,8 @@ for _k, _v in ROUND9.items():
 for _k in CLAIMS:
     CLAIMS[_k]["text"] += " Differentially: a function that failed only when a callee failed still does."
     CLAIMS[_k]["text"] += (" Robustness to correct refactorings: new static helpers are inlined and new temporaries read through before the shape and relational rules "
-                           "run (reference: the pinned tree's names); of sixty independently written behaviour-preserving refactorings 51 are quiet under all twenty "
-                           "checks, 9 still draw a false report (DESIGN 9.5a, benignseeds/).")
+                           "run (reference: the pinned tree's names); of ninety independently written behaviour-preserving refactorings 71 are quiet under all twenty "
+                           "checks (18 of the 30 written after the corrections were quiet on the first run), 19 still draw a false report (DESIGN 9.5a, benignseeds/).")
 
 NOT_APPLICABLE = {
 }
